@@ -287,6 +287,13 @@ FamC11(dummy) ==
   UNION {{Run(P, pl, {}) : pl \in {<<>>, <<F(IdOf(0, 0, 1))>>}} :
          P \in {ProgC11(kd, op, k0, pr) : kd \in Kinds8, op \in OpsC11, k0 \in 0 .. 2,
                   pr \in IF Tier = "quick" THEN {<<3>>, <<3, 3>>, <<2, 3, 3>>} ELSE {<<3>>, <<3, 3>>, <<2, 3, 3>>, <<3, 1, 3>>, <<3, 3, 3>>}}}
+  \* the same captures when the branches of a step are handed to a custom joiner, eagerly or as closures (`lazy_branches(true)`):
+  \* a capture belongs to the step, not to the branch closure, so it is evaluated before the joiner is called
+  \cup UNION {{Run([P EXCEPT !.opts = o], pl, {}) : pl \in {<<>>, <<F(IdOf(0, 0, 1))>>},
+                   o \in {[joiner |-> "eager", lazy |-> "default", transpose |-> "default", path |-> "default"],
+                          [joiner |-> "lazy", lazy |-> "true", transpose |-> "default", path |-> "default"]}} :
+              P \in {ProgC11(kd, op, k0, pr) : kd \in {q \in Kinds8 : ~q.spawn}, op \in {"map", "or_else", "then"}, k0 \in 0 .. 1,
+                       pr \in {<<2, 2>>, <<2, 3, 3>>}}}
 
 \* ---- C12: let names.  Every capture of a step >= 1 reads every named branch.
 ProgC12(kd, pr, named, mut) ==
